@@ -1,8 +1,12 @@
 (* C03 — Crash durability: acknowledged commits survive; recovery is a consistent prefix.
    Only property theorems, each closed by `exact`.  The model: coq/Crash/Storage.v (a log file as
    durable content + pending OS writes + user-space buffer; a crash image = durable content
-   overwritten by any prefix of the pending writes and a torn next write, independently per file;
-   rewinds never truncate), coq/Crash/Protocol.v (the commit protocol of embedded/store as a state
+   overwritten by any prefix of the pending operations and a torn next write, independently per file;
+   since fix 09014a8 a rewind below the flushed size is a TRUNCATION (singleapp: Truncate; multiapp:
+   chunk files removed, directory fsynced, then Truncate) that stays pending until the next fsync of
+   that file: a crash image may have it applied completely, partly (at any larger offset: the chunk
+   files are gone, the bytes behind the new offset inside its chunk are not) or not at all),
+   coq/Crash/Protocol.v (the commit protocol of embedded/store as a state
    machine at the granularity of its storage operations, for any interleaving of any number of
    committers; `recover` = OpenWith).  H is ANY function with 32-byte outputs standing for SHA-256.
    `reach c nv s`: s is reachable from a fresh store with configuration c and nv value logs by any
@@ -29,17 +33,60 @@ Theorem C03_ack_implies_durable :
 Proof. exact ack_implies_durable. Qed.
 Print Assumptions C03_ack_implies_durable.
 
-(* Crash safety (logs AND values; the hash-tree part is C03_crash_safety_tree below):
-   for EVERY reachable state and EVERY crash image of it (per file: any prefix of the un-fsynced
-   writes, torn last write, stale bytes past rewound offsets as they are), recovery succeeds, is
-   again a reachable state ready for commits (idle, hash tree re-linked to the precommitted id) whose
-   files are the images, every acknowledged transaction is read back BYTE-IDENTICAL, the recovered
-   committed history is gap-free with a consistent hash chain and extends the acknowledged one, and
-   EVERY transaction of the recovered committed history has its values in the value-log image. *)
-Theorem C03_crash_safety_values :
+(* Crash safety (logs AND values; the hash-tree CONTENT is C03_crash_safety_tree below), the code as
+   it is (since 09014a8).  For EVERY reachable state and EVERY crash image of it (per file: any prefix
+   of the un-fsynced operations, torn last write, pending truncations applied or not):
+   EITHER the image fails the size check of ahtree.OpenWith (the tree's digest log is shorter than its
+   commit log says) and recovery returns ErrCorruptedData — this DOES happen, C03_crash_safety_values_refuted —
+   OR recovery succeeds, is again a reachable state ready for commits (idle, hash tree re-linked to
+   the precommitted id) whose files are the images, every acknowledged transaction is read back
+   BYTE-IDENTICAL, the recovered committed history is gap-free with a consistent hash chain and
+   extends the acknowledged one, and EVERY transaction of the recovered committed history has its
+   values in the value-log image.  Nothing else can go wrong: the tx, commit and value logs ALWAYS
+   recover. *)
+Theorem C03_crash_safety_values_partial :
   forall (H : bytes -> bytes), (forall x, length (H x) = 32%nat) ->
   forall (c : cfg) (nv : nat) (s : st) (im : images),
     c_prealloc c = false -> 0 < c_thld c -> reach H c nv s -> crash s im ->
+    (len (i_ahd im) < 32 * (len (i_ahc im) / 12) /\ recover H c im = Err ECorruptedData) \/
+    (~ len (i_ahd im) < 32 * (len (i_ahc im) / 12) /\
+     exists s', recover H c im = Ok s' /\ reach H c nv s' /\
+      acked s <= committed s' /\ acked s' = committed s' /\ phase_ s' = PIdle /\
+      asize s' = precommitted s' /\
+      durable (txl s') = i_txl im /\ durable (cml s') = i_cml im /\ map durable (vls s') = i_vls im /\
+      (forall k, 1 <= k <= acked s ->
+         tx_at (i_txl im) (i_cml im) k = tx_at (durable (txl s)) (durable (cml s)) k) /\
+      history_ok H (i_txl im) (i_cml im) (committed s') /\
+      (forall k, 1 <= k <= committed s' -> values_durable_for H s' k)).
+Proof. exact crash_safety. Qed.
+Print Assumptions C03_crash_safety_values_partial.
+
+(* REFUTED for the code as it is (known finding D, a regression of 09014a8 combined with the
+   in-memory-only ahtree.ResetSize): transaction 1 committed and acknowledged; 2 and 3 precommitted,
+   the tree reaches its sync threshold and fsyncs 3 leaves, crash before the tx log is fsynced;
+   recovery resets the tree to 1 leaf IN MEMORY; the next precommit appends leaf 2' at offset 32 =
+   the digest log is truncated there while the tree's commit log still lists 3 entries; second
+   crash with the truncation on disk: ahtree.OpenWith fails ("hash log is corrupted"), the store does
+   not open although it holds an acknowledged commit. *)
+Theorem C03_crash_safety_values_refuted :
+  exists (c : cfg) (nv : nat) (s : st) (im : images),
+    c_prealloc c = false /\ 0 < c_thld c /\ c_ahtsync c = true /\ c_ahtreset c = false /\
+    reach Hh c nv s /\ crash s im /\ acked s = 1 /\
+    len (i_ahd im) < 32 * (len (i_ahc im) / 12) /\
+    recover Hh c im = Err ECorruptedData.
+Proof. exact aht_truncation_refuted. Qed.
+Print Assumptions C03_crash_safety_values_refuted.
+
+(* With the proposed repair fixes/C03-aht-durable-reset.diff (ahtree.ResetSize rewinds the tree's
+   commit log and fsyncs it before the payload/digest logs can be truncated; model switch
+   c_ahtreset = true — NOT what the correspondence run compares with the code, Tie.C03.aht_durable_reset
+   = false): the exception disappears, recovery succeeds on EVERY crash image of EVERY reachable
+   state. *)
+Theorem C03_crash_safety_values_repaired :
+  forall (H : bytes -> bytes), (forall x, length (H x) = 32%nat) ->
+  forall (c : cfg) (nv : nat) (s : st) (im : images),
+    c_prealloc c = false -> 0 < c_thld c -> c_ahtsync c = true -> c_ahtreset c = true ->
+    reach H c nv s -> crash s im ->
     exists s', recover H c im = Ok s' /\ reach H c nv s' /\
       acked s <= committed s' /\ acked s' = committed s' /\ phase_ s' = PIdle /\
       asize s' = precommitted s' /\
@@ -48,11 +95,11 @@ Theorem C03_crash_safety_values :
          tx_at (i_txl im) (i_cml im) k = tx_at (durable (txl s)) (durable (cml s)) k) /\
       history_ok H (i_txl im) (i_cml im) (committed s') /\
       (forall k, 1 <= k <= committed s' -> values_durable_for H s' k).
-Proof. exact crash_safety. Qed.
-Print Assumptions C03_crash_safety_values.
+Proof. exact crash_safety_repaired. Qed.
+Print Assumptions C03_crash_safety_values_repaired.
 
 (* The machine accepts new commits from every idle reachable state whose hash tree is linked up to
-   the precommitted id — in particular from every recovered state (C03_crash_safety_values gives
+   the precommitted id — in particular from every recovered state (C03_crash_safety_values_partial gives
    exactly these premises): (1) a sync cycle commits and acknowledges the reloaded backlog ... *)
 Theorem C03_backlog_is_committed :
   forall (H : bytes -> bytes), (forall x, length (H x) = 32%nat) ->
@@ -85,33 +132,54 @@ Theorem C03_accepts_new_commits :
 Proof. exact accepts_new_commits. Qed.
 Print Assumptions C03_accepts_new_commits.
 
-(* Crash DURING recovery: recovery interrupted after re-linking any number `upto` of hash-tree leaves
-   has written nothing to the tx, commit and value logs (its only effects there are in-memory
-   rewinds), so ANY crash image of the interrupted state has the same three logs, and recovering it
-   gives the same committed id, committed Alh, reloaded precommitted transactions, log positions and
-   log files as the uninterrupted recovery (both idle, tree linked up to the precommitted id). *)
-Theorem C03_crash_during_recovery :
+(* Crash DURING recovery, the code as it is: recovery interrupted after re-linking any number `upto`
+   of hash-tree leaves has written nothing to the tx and value logs and at most TRUNCATED the partial
+   last entry off the commit log (pending, so any crash image of the interrupted state has the same
+   tx and value logs and a commit log cut anywhere at or after the last whole entry); the
+   uninterrupted recovery of the first image succeeds, and recovering the second image EITHER fails
+   the tree's size check (as in C03_crash_safety_values_refuted) OR gives the same committed id,
+   committed Alh, reloaded precommitted transactions, log positions and tx/value log files as the
+   uninterrupted recovery (both idle, tree linked up to the precommitted id). *)
+Theorem C03_crash_during_recovery_partial :
   forall (H : bytes -> bytes), (forall x, length (H x) = 32%nat) ->
   forall (c : cfg) (nv : nat) (s : st) (im : images) (upto : nat) (s1 : st) (im' : images),
     c_prealloc c = false -> 0 < c_thld c -> reach H c nv s -> crash s im ->
     recover_upto H upto c im = Ok s1 -> crash s1 im' ->
-    i_txl im' = i_txl im /\ i_cml im' = i_cml im /\ i_vls im' = i_vls im /\
-    exists s2 sf,
-      recover H c im' = Ok s2 /\ recover H c im = Ok sf /\
-      committed s2 = committed sf /\ calh s2 = calh sf /\ pbuf s2 = pbuf sf /\ palh s2 = palh sf /\
-      pts s2 = pts sf /\ acked s2 = acked sf /\ txl s2 = txl sf /\ cml s2 = cml sf /\ vls s2 = vls sf /\
-      phase_ s2 = PIdle /\ phase_ sf = PIdle /\
-      asize s2 = precommitted s2 /\ asize sf = precommitted sf.
+    i_txl im' = i_txl im /\ i_vls im' = i_vls im /\
+    (exists m, len (i_cml im) - len (i_cml im) mod 44 <= m /\ i_cml im' = take m (i_cml im)) /\
+    exists sf,
+      recover H c im = Ok sf /\ phase_ sf = PIdle /\ asize sf = precommitted sf /\
+      ((len (i_ahd im') < 32 * (len (i_ahc im') / 12) /\ recover H c im' = Err ECorruptedData) \/
+       (~ len (i_ahd im') < 32 * (len (i_ahc im') / 12) /\ exists s2,
+          recover H c im' = Ok s2 /\
+          committed s2 = committed sf /\ calh s2 = calh sf /\ pbuf s2 = pbuf sf /\ palh s2 = palh sf /\
+          pts s2 = pts sf /\ acked s2 = acked sf /\ txl s2 = txl sf /\ vls s2 = vls sf /\
+          phase_ s2 = PIdle /\ asize s2 = precommitted s2)).
 Proof. exact crash_during_recovery. Qed.
-Print Assumptions C03_crash_during_recovery.
+Print Assumptions C03_crash_during_recovery_partial.
+
+(* ... and with the proposed repair fixes/C03-aht-durable-reset.diff both recoveries always succeed
+   and agree. *)
+Theorem C03_crash_during_recovery_repaired :
+  forall (H : bytes -> bytes), (forall x, length (H x) = 32%nat) ->
+  forall (c : cfg) (nv : nat) (s : st) (im : images) (upto : nat) (s1 : st) (im' : images),
+    c_prealloc c = false -> 0 < c_thld c -> c_ahtsync c = true -> c_ahtreset c = true ->
+    reach H c nv s -> crash s im -> recover_upto H upto c im = Ok s1 -> crash s1 im' ->
+    exists sf s2,
+      recover H c im = Ok sf /\ recover H c im' = Ok s2 /\
+      committed s2 = committed sf /\ calh s2 = calh sf /\ pbuf s2 = pbuf sf /\ palh s2 = palh sf /\
+      pts s2 = pts sf /\ acked s2 = acked sf /\ txl s2 = txl sf /\ vls s2 = vls sf /\
+      phase_ s2 = PIdle /\ phase_ sf = PIdle /\ asize s2 = precommitted s2 /\ asize sf = precommitted sf.
+Proof. exact crash_during_recovery_repaired. Qed.
+Print Assumptions C03_crash_during_recovery_repaired.
 
 (* Crash safety, hash-tree part (the code since fix b260503: store.sync() fsyncs the tree after the
    tx log and before the commit entries are appended; model switch c_ahtsync = true, which is what
    the correspondence run compares with the code: Tie.C03.repair_applied): in EVERY reachable state —
    hence in every recovered state, after any number of crashes, also during recovery — every leaf k
    of the tree (1 <= k <= tree size) is the Alh of transaction k.  Together with
-   C03_crash_safety_values (tree size = precommitted id after recovery) this completes the
-   crash-safety statement for stores without PreallocFiles.  (For the code before b260503 the
+   C03_crash_safety_values_partial / _repaired (tree size = precommitted id after recovery) this
+   completes the crash-safety statement for stores without PreallocFiles.  (For the code before b260503 the
    statement was false: Crash/Refuted.v tree_refuted, known finding B, now fixed.) *)
 Theorem C03_crash_safety_tree :
   forall (H : bytes -> bytes), (forall x, length (H x) = 32%nat) ->
@@ -123,7 +191,9 @@ Print Assumptions C03_crash_safety_tree.
 
 (* REFUTED (known finding C): with PreallocFiles the commit-log size is not trimmed to a multiple of
    the entry size; a partially written entry (write buffer flushed inside the entry, or torn write)
-   of a NOT acknowledged transaction is taken as the last commit and recovery fails. *)
+   of a NOT acknowledged transaction is taken as the last commit and recovery fails.  (Proposed
+   repair fixes/C03-prealloc-clog-trim.diff = model switch c_preallocfix: the same image recovers,
+   Crash/Refuted.v scenario_C_repaired; no general theorem for PreallocFiles is claimed.) *)
 Theorem C03_crash_safety_prealloc_refuted :
   exists (c : cfg) (nv : nat) (s : st) (im : images),
     c_prealloc c = true /\ reach Hh c nv s /\ crash s im /\ acked s = 0 /\
